@@ -53,6 +53,7 @@ Event ==
      \/ /\ e.ev = "res" /\ e.thr \in {"p1", "p2", "p3"} /\ Stutter /\ UNCHANGED lastres
         /\ ppc[e.thr] = "start" /\ pres[e.thr] # <<>> /\ Last(pres[e.thr]) = e.r
      \/ /\ e.ev = "hook" /\ e.pt = "bq.take.checked" /\ ConsStart(e.thr, Kind(e.op)) /\ UNCHANGED lastres
+     \/ /\ e.ev = "hook" /\ e.pt = "bq.notify.checked" /\ cpc[e.thr] \in {"checked", "notified"} /\ Stutter /\ UNCHANGED lastres   \* inside notifyWorkers, after its closed check
      \/ /\ e.ev = "hook" /\ e.pt \in {"bq.take.notified", "bq.getch.notified"} /\ cpc[e.thr] = "notified" /\ Stutter /\ UNCHANGED lastres
      \/ /\ e.ev = "hook" /\ e.pt = "bq.getch.enter" /\ ConsStart(e.thr, "ttake") /\ UNCHANGED lastres   \* GetChannel has no closed check of its own
      \/ /\ e.ev = "res" /\ e.thr \in {"c1", "c2", "c3"} /\ Stutter /\ UNCHANGED lastres
